@@ -452,7 +452,121 @@ def random_worker(task):
     return {"violations": C.rec["violations"], "errors": [], "extra": {"random_schedules": n}}
 
 
+# ------------------------------------------------------------------------------------------------
+# (c) a first use that FAILS: eager decoration raises; lazily every use raises the same error until the cause is
+#     gone, and the class bootstrapped afterwards is the eager one (never a half-assembled class handed out quietly)
+# ------------------------------------------------------------------------------------------------
+FAILING = {
+    # the generated constructor cannot have a parameter named `class`: the LAST phase of the bootstrap fails, always
+    "keyword_attr": dict(src='''
+@spec_class(%(args)sattrs_typed={"class": int})
+class C:
+    pass
+''', error="ValueError", recovers=False),
+    # the user's annotation callback fails once (forward reference not resolvable yet), then succeeds
+    "annotation_types_once": dict(src='''
+FAIL = {"n": %(fail)d}
+@spec_class(%(args)s)
+class C:
+    a: "Later" = None
+    b: List[int] = Attr(default_factory=lambda: [1])
+    @staticmethod
+    def ANNOTATION_TYPES():
+        if FAIL["n"] > 0:
+            FAIL["n"] -= 1
+            raise RuntimeError("types not ready")
+        return {"Later": Optional[int]}
+''', error="RuntimeError", recovers=True),
+    # lazily decorated parent fails once while its lazily decorated child is being used
+    "parent_fails_once": dict(src='''
+FAIL = {"n": %(fail)d}
+@spec_class(%(args)s)
+class P:
+    a: "Later" = None
+    @staticmethod
+    def ANNOTATION_TYPES():
+        if FAIL["n"] > 0:
+            FAIL["n"] -= 1
+            raise RuntimeError("types not ready")
+        return {"Later": Optional[int]}
+@spec_class(%(args)s)
+class C(P):
+    b: List[int] = Attr(default_factory=lambda: [1])
+''', error="RuntimeError", recovers=True),
+}
+FAIL_TRIGGERS = ["instantiate", "spec_class_attr", "dataclass_fields", "subclass_instantiate", "meta_then_helper"]
+
+
+def failing_classes(name, eager, fail):
+    ns = {"__name__": "verif_c19"}
+    exec(compile(PRELUDE, "<c19-prelude>", "exec", dont_inherit=True), ns)
+    src = FAILING[name]["src"] % {"args": "bootstrap=True, " if eager and "attrs_typed" in FAILING[name]["src"] else ("bootstrap=True" if eager else ""), "fail": fail}
+    exec(compile(src, f"<c19-failing-{name}>", "exec", dont_inherit=True), ns)
+    return ns
+
+
+def failing_case(name, triggers):
+    """-> list of problems"""
+    F = FAILING[name]
+    probs = []
+    # eager reference: decoration raises while the cause is present ...
+    try:
+        failing_classes(name, eager=True, fail=1)
+        probs.append("eager decoration did not raise (harness expectation)")
+    except Exception as e:
+        if type(e).__name__ != F["error"]:
+            probs.append(f"eager decoration raised {type(e).__name__}")
+    desc_e = None
+    if F["recovers"]:
+        desc_e = light_description(failing_classes(name, eager=True, fail=0)["C"])
+    ns = failing_classes(name, eager=False, fail=1)
+    failures_left = 1 if F["recovers"] else 10 ** 6
+    for i, t in enumerate(triggers):
+        try:
+            trigger(ns, "plain2", t)
+            raised = None
+        except Exception as e:
+            raised = type(e).__name__
+        if failures_left > 0:
+            failures_left -= 1
+            if raised != F["error"]:
+                probs.append(f"use #{i + 1} ({t}) while the cause is present: {'returned' if raised is None else 'raised ' + raised} instead of raising {F['error']}")
+        elif raised is not None:
+            probs.append(f"use #{i + 1} ({t}) after the cause is gone raised {raised}")
+    if F["recovers"] and len(triggers) > 1 and not probs:
+        d = diff(light_description(ns["C"]), desc_e, "class")
+        if d:
+            probs.append("class bootstrapped after the failed first use differs from the eager one: " + d[0])
+    return probs
+
+
+def failing_worker(task):
+    C = Counter()
+    name = task["name"]
+    install_coop_lock(False)
+    seqs = [s for r in (1, 2, 3) for s in itertools.product(FAIL_TRIGGERS, repeat=r)]
+    for seq in seqs:
+        probs = failing_case(name, seq)
+        C.inc("states")
+        C.inc("transitions", len(seq))
+        C.inc("evaluations")
+        if probs:
+            C.viol(violation(PROP, {"part": "failing_first_use", "kind": "failed_bootstrap_mishandled", "body": name, "first": seq[0], "uses": len(seq)},
+                             {"problems": probs[:4]}, {"part": "failing_first_use", "body": name, "triggers": list(seq)}))
+        else:
+            C.inc("traces_validated_against_impl")
+            C.nontrivial((name, seq))
+    C.sample({"part": "failing_first_use", "body": name, "sequences": len(seqs)})
+    return C.rec
+
+
 def run_case(case):
+    if case["part"] == "failing_first_use":
+        install_coop_lock(False)
+        probs = failing_case(case["body"], tuple(case["triggers"]))
+        seq = case["triggers"]
+        return [violation(PROP, {"part": "failing_first_use", "kind": "failed_bootstrap_mishandled", "body": case["body"], "first": seq[0], "uses": len(seq)},
+                          {"problems": probs[:4]}, case)] if probs else []
     body = case["body"]
     install_coop_lock(False)
     desc_e, obs_e = eager_reference(body)
@@ -475,12 +589,12 @@ def run_case(case):
 
 
 def work(task):
-    return {"seq": seq_worker, "threads": thread_worker, "random": random_worker}[task["part"]](task)
+    return {"seq": seq_worker, "threads": thread_worker, "random": random_worker, "failing": failing_worker}[task["part"]](task)
 
 
 def main(run):
     quick = run.tier == "quick"
-    tasks = [{"part": "seq", "body": b} for b in BODIES]
+    tasks = [{"part": "seq", "body": b} for b in BODIES] + [{"part": "failing", "name": n} for n in FAILING]
     pairs = [("instantiate", "instantiate"), ("instantiate", "meta_then_helper"), ("instantiate", "fields_then_helper"), ("spec_class_attr", "dataclass_fields"),
              ("instantiate_kw", "subclass_instantiate"), ("dataclasses_fields", "instantiate"), ("subclass_meta", "instantiate")]
     bodies_q = ["attr_factory", "one_attr", "inherit_lazy_parent", "own_new"]
@@ -514,7 +628,8 @@ def main(run):
         "(a) every class body x every first trigger (x an optional second use) on a fresh lazily decorated class vs the eagerly "
         "bootstrapped twin; (b) per (body, trigger tuple): every schedule with <= bound preemptions of 2-3 real threads each performing "
         "a first use, scheduling points = executed lines of spec_class.py + methods/base.py, fresh classes per execution; states = "
-        "sequential configurations + schedules, transitions = trigger executions + scheduling points"
+        "sequential configurations + schedules, transitions = trigger executions + scheduling points; (c) 3 classes whose first use fails "
+        "(always / once) x every sequence of <= 3 uses: each use raises the eager error while the cause lasts and the class built afterwards is the eager one"
     ))
     run.assumptions += [
         "the library's RLock is replaced by a cooperative re-entrant lock; preemption granularity = source line in the scheduling files, other code runs atomically",
